@@ -772,6 +772,13 @@ class TrueTypeFont:
             pass
 
     def create_unicode_map(self) -> FileUnicodeMap:
+        try:
+            return self._create_unicode_map()
+        except struct.error as e:
+            # the font program ends inside the cmap table
+            raise TrueTypeFont.CMapNotFound(f"truncated cmap table: {e}")
+
+    def _create_unicode_map(self) -> FileUnicodeMap:
         if b"cmap" not in self.tables:
             raise TrueTypeFont.CMapNotFound
         (base_offset, length) = self.tables[b"cmap"]
